@@ -311,3 +311,74 @@ func resolveLocal(v ssa.Value) ssa.Value {
 	}
 	return v
 }
+
+// ReturnsReachableAvoiding reports whether some function exit (Return) is reachable from `from`
+// without entering any block of `avoid`. from itself counts if it returns and is not avoided.
+func ReturnsReachableAvoiding(from *ssa.BasicBlock, avoid map[*ssa.BasicBlock]bool) bool {
+	if avoid[from] {
+		return false
+	}
+	seen := map[*ssa.BasicBlock]bool{from: true}
+	stack := []*ssa.BasicBlock{from}
+	for len(stack) > 0 {
+		b := stack[len(stack)-1]
+		stack = stack[:len(stack)-1]
+		if _, ok := b.Instrs[len(b.Instrs)-1].(*ssa.Return); ok {
+			return true
+		}
+		for _, s := range b.Succs {
+			if !seen[s] && !avoid[s] {
+				seen[s] = true
+				stack = append(stack, s)
+			}
+		}
+	}
+	return false
+}
+
+// StoresToField lists the stores in fn whose address is a FieldAddr of the given field.
+func StoresToField(fn *ssa.Function, f *types.Var) []*ssa.Store {
+	var out []*ssa.Store
+	for _, b := range fn.Blocks {
+		for _, in := range b.Instrs {
+			st, ok := in.(*ssa.Store)
+			if !ok {
+				continue
+			}
+			if fa, ok := st.Addr.(*ssa.FieldAddr); ok && FieldVar(fa.X.Type(), fa.Field) == f {
+				out = append(out, st)
+			}
+		}
+	}
+	return out
+}
+
+// IsZeroValue reports whether v is the zero value of its type: a nil/zero constant, or a load
+// of a fresh local allocation that is never stored to (the SSA form of T{}).
+func IsZeroValue(v ssa.Value) bool {
+	switch x := v.(type) {
+	case *ssa.Const:
+		return x.Value == nil || x.IsNil()
+	case *ssa.UnOp:
+		if x.Op != token.MUL {
+			return false
+		}
+		al, ok := x.X.(*ssa.Alloc)
+		if !ok {
+			return false
+		}
+		for _, r := range *al.Referrers() {
+			switch rr := r.(type) {
+			case *ssa.Store:
+				if rr.Addr == al {
+					return false
+				}
+			case *ssa.UnOp, *ssa.DebugRef:
+			default:
+				return false
+			}
+		}
+		return true
+	}
+	return false
+}
